@@ -42,10 +42,11 @@ type timeline struct {
 	Writers   int
 	PeriodMS  []int // per writer
 	ViaLogger bool
+	Bursters  int // goroutines that hit every boundary together
 }
 
 func (tl timeline) String() string {
-	return fmt.Sprintf("dur=%dms outages=%v writers=%d periods=%v viaLogger=%v", tl.DurMS, tl.Outages, tl.Writers, tl.PeriodMS, tl.ViaLogger)
+	return fmt.Sprintf("dur=%dms outages=%v writers=%d periods=%v viaLogger=%v bursters=%d", tl.DurMS, tl.Outages, tl.Writers, tl.PeriodMS, tl.ViaLogger, tl.Bursters)
 }
 
 func genTimeline(t *rapid.T, label string) timeline {
@@ -85,6 +86,7 @@ func runTimeline(tl timeline, parent string) outcome {
 	away := filepath.Join(parent, "logs.away")
 	_ = os.MkdirAll(dir, 0o755)
 	var write func(line string) (panicked any, blocked bool)
+	var rawWrite func(line string) // no watchdog goroutine in the way: used by the boundary bursts
 	var stop func()
 	if tl.ViaLogger {
 		// one time-line at a time uses the global configuration (see TestC19_Outage)
@@ -99,6 +101,7 @@ func runTimeline(tl timeline, parent string) outcome {
 			done, p := vk.Within(10*time.Second, func() { log.Info(context.Background(), tagT, log.String("rec", line)) })
 			return p, !done
 		}
+		rawWrite = func(line string) { log.Info(context.Background(), tagT, log.String("rec", line)) }
 		stop = log.Destroy
 	} else {
 		a := &log.RollingFileAppender{AppenderBase: log.AppenderBase{Name: "r"}, Layout: &log.TextLayout{BaseLayout: log.BaseLayout{FileLineLength: 48}},
@@ -110,6 +113,7 @@ func runTimeline(tl timeline, parent string) outcome {
 			done, p := vk.Within(10*time.Second, func() { a.Write([]byte(line + "\n")) })
 			return p, !done
 		}
+		rawWrite = func(line string) { a.Write([]byte(line + "\n")) }
 		stop = a.Stop
 	}
 	startT := time.Now()
@@ -150,8 +154,51 @@ func runTimeline(tl timeline, parent string) outcome {
 			mu.Unlock()
 		}()
 	}
+	// boundary-aimed bursts: several goroutines arrive at the rotation decision of the same boundary
+	// together (they wait until just before each boundary and then write back to back for a few ms)
+	for b := 0; b < tl.Bursters; b++ {
+		wg.Add(1)
+		go func() {
+			defer wg.Done()
+			seq := 0
+			var mine []rec
+			for {
+				now := time.Now()
+				next := now.Truncate(time.Second).Add(time.Second)
+				if next.After(endT) {
+					break
+				}
+				lines := make([]string, 6)
+				for i := range lines {
+					lines[i] = fmt.Sprintf("w%d:%d:%08x", 100+b, seq+i, crc32.ChecksumIEEE([]byte(strconv.Itoa(100+b)+"/"+strconv.Itoa(seq+i))))
+				}
+				// The goroutines spin all the way to the boundary. (In this sandbox a parked thread
+				// takes up to a timer tick, 4 ms, to wake and the scheduler hands waiting goroutines
+				// to processors one wake-up at a time: after a sleep they reach the boundary up to a
+				// millisecond apart; spinning, within a few hundred nanoseconds.)
+				for time.Now().Before(next) { // busy wait: all of them leave together
+				}
+				for _, line := range lines {
+					t0 := time.Now()
+					if p := vk.Catch(func() { rawWrite(line) }); p != nil {
+						mu.Lock()
+						if firstErr == nil {
+							firstErr = fmt.Errorf("a write/log call panicked: %v", p)
+						}
+						mu.Unlock()
+						return
+					}
+					mine = append(mine, rec{100 + b, seq, t0, time.Now()})
+					seq++
+				}
+			}
+			mu.Lock()
+			all = append(all, mine...)
+			mu.Unlock()
+		}()
+	}
 	// the fault injector
-	type span struct{ from, to time.Time }
+	type span struct{ from, to, fromDone, toBegin time.Time } // from/to enclose the outage, fromDone/toBegin lie inside it
 	var spans []span
 	for _, o := range tl.Outages {
 		time.Sleep(time.Until(startT.Add(time.Duration(o.FromMS) * time.Millisecond)))
@@ -159,13 +206,17 @@ func runTimeline(tl timeline, parent string) outcome {
 		if err := os.Rename(dir, away); err != nil {
 			return outcome{err: fmt.Errorf("VERIF-INCONCLUSIVE: rename: %v", err)}
 		}
+		t1 := time.Now()
 		time.Sleep(time.Until(startT.Add(time.Duration(o.ToMS) * time.Millisecond)))
+		t2 := time.Now()
 		if err := os.Rename(away, dir); err != nil {
 			return outcome{err: fmt.Errorf("VERIF-INCONCLUSIVE: rename back: %v", err)}
 		}
-		spans = append(spans, span{t0, time.Now()})
+		spans = append(spans, span{t0, time.Now(), t1, t2})
 	}
-	wg.Wait()
+	if done, _ := vk.Within(time.Until(endT)+15*time.Second, wg.Wait); !done {
+		return outcome{err: fmt.Errorf("VERIF-HANG a write/log call issued at an interval boundary had not returned 15 s after the end of the time-line")}
+	}
 	if p := vk.Catch(stop); p != nil {
 		return outcome{err: fmt.Errorf("Stop/Destroy panicked after the outage: %v", p)}
 	}
@@ -222,7 +273,7 @@ func runTimeline(tl timeline, parent string) outcome {
 			}
 			// creation is attempted again at the next boundary: with one writer, a write issued
 			// after the first boundary following restoration sits in a file created at/after it
-			if tl.Writers == 1 {
+			if tl.Writers == 1 && tl.Bursters == 0 {
 				b := sp.to.Truncate(time.Second).Add(time.Second)
 				later := false
 				for _, o := range spans {
@@ -238,6 +289,40 @@ func runTimeline(tl timeline, parent string) outcome {
 	}
 	if len(found) != len(all) {
 		return outcome{err: fmt.Errorf("the files hold %d distinct records, %d were written", len(found), len(all))}
+	}
+	// every call returns while the directory is away - it is not parked until the directory is back
+	for _, r := range all {
+		for _, sp := range spans {
+			if r.start.After(sp.fromDone) && r.start.Before(sp.toBegin.Add(-1500*time.Millisecond)) && r.end.After(sp.to) {
+				return outcome{err: fmt.Errorf("the call writer=%d seq=%d began at %s while the directory was away (%s .. %s) and returned only at %s, after the directory was back: it was held for the rest of the outage", r.w, r.seq, r.start.Format("15:04:05.000"), sp.from.Format("15:04:05.000"), sp.to.Format("15:04:05.000"), r.end.Format("15:04:05.000"))}
+			}
+		}
+	}
+	// creation is attempted at a boundary, not in the middle of an interval: when a boundary fell
+	// into an outage and a write call began after it and returned before the directory came back,
+	// that call made the attempt (and failed); no file is named for that second - the next attempt
+	// belongs to the next boundary
+	for _, sp := range spans {
+		for b := sp.from.Truncate(time.Second).Add(time.Second); b.Before(sp.to); b = b.Add(time.Second) {
+			if !sp.fromDone.Before(b) {
+				continue
+			}
+			attempted := false
+			for _, r := range all {
+				if r.start.After(b) && r.end.Before(sp.toBegin.Add(-200*time.Millisecond)) { // margin: the elected goroutine syncs and closes an old file before it creates
+					attempted = true
+					break
+				}
+			}
+			if !attempted {
+				continue
+			}
+			for _, e := range ents {
+				if m := nameRe.FindStringSubmatch(e.Name()); m != nil && m[1] == b.Format("20060102150405") {
+					return outcome{err: fmt.Errorf("the file %s is named for the boundary %s, which fell into the outage (%s .. %s) and was followed by a write inside the outage: it was created in the middle of the interval instead of creation being attempted again at the next boundary", e.Name(), b.Format("15:04:05"), sp.from.Format("15:04:05.000"), sp.to.Format("15:04:05.000"))}
+				}
+			}
+		}
 	}
 	return out
 }
@@ -431,5 +516,50 @@ func TestC19_Static(t *testing.T) {
 				t.Fatalf("VERIF-VIOLATION C19: I/O failure surfaced as a panic (%s, call %d): %v", fault, i, p)
 			}
 		}
+	})
+}
+
+// TestC19_BoundaryRace aims several goroutines at every boundary of a time-line whose outages
+// cover most boundaries: the rotation decision is taken by several callers at once while file
+// creation fails. Every call returns, nothing is lost, no file appears in mid-interval.
+func TestC19_BoundaryRace(t *testing.T) {
+	vk.Rule(rule)
+	base := vk.Scratch("c19r")
+	batch := 0
+	rapid.Check(t, func(t *rapid.T) {
+		tl := timeline{DurMS: rapid.SampledFrom([]int{5300, 4300, 3300}).Draw(t, "dur"), Writers: 1, PeriodMS: []int{rapid.SampledFrom([]int{150, 60, 333}).Draw(t, "period")}}
+		tl.Bursters = rapid.SampledFrom([]int{12, 10, 8, 6, 3, 2}).Draw(t, "bursters")
+		tl.ViaLogger = rapid.SampledFrom([]bool{false, false, true}).Draw(t, "viaLogger")
+		// one or two outages, each long enough to cover at least one boundary
+		from := rapid.IntRange(100, 900).Draw(t, "from")
+		to := from + rapid.SampledFrom([]int{2600, 1100, 3700, 1900}).Draw(t, "len")
+		to = min(to, tl.DurMS-150)
+		tl.Outages = append(tl.Outages, window{from, to})
+		if to+1400 < tl.DurMS-150 && rapid.Bool().Draw(t, "second") {
+			tl.Outages = append(tl.Outages, window{to + 250, min(to+250+rapid.IntRange(900, 1500).Draw(t, "len2"), tl.DurMS-150)})
+		}
+		batch++
+		log.Destroy()
+		parent := filepath.Join(base, fmt.Sprintf("b%d", batch))
+		_ = os.MkdirAll(parent, 0o755)
+		o := runTimeline(tl, parent)
+		log.Destroy()
+		vk.Eval()
+		vk.Class(fmt.Sprintf("race:bursters:%d", tl.Bursters))
+		if o.boundaryInOutage && o.writesInOutage > 0 {
+			vk.NonTrivial(tl.String())
+		}
+		vk.Sample(map[string]any{"timeline": tl.String(), "files": o.files, "writes_in_outage": o.writesInOutage})
+		if o.err != nil {
+			if strings.Contains(o.err.Error(), "VERIF-INCONCLUSIVE") {
+				t.Fatalf("%v", o.err)
+			}
+			if strings.Contains(o.err.Error(), "VERIF-HANG") {
+				vk.HardFail("c19-hang", map[string]any{"timeline": tl}, "C19: %v; time-line: %s", o.err, tl)
+			}
+			p := vk.SaveCase("c19", map[string]any{"timeline": tl, "error": o.err.Error(), "schedule_dependent": true})
+			t.Fatalf("VERIF-VIOLATION C19: %v\ntime-line: %s (case %s)", o.err, tl, p)
+		}
+		_ = os.RemoveAll(parent)
 	})
 }
